@@ -10,6 +10,7 @@ package main
 //   watcher-fatal  LIST is Forbidden for 1-3 watched kinds; counts error events.
 
 import (
+	"errors"
 	"bufio"
 	"context"
 	"encoding/json"
@@ -1905,5 +1906,77 @@ func init() {
 			return nil, err
 		}
 		return runLateCase(in), nil
+	}})
+}
+
+// ---------------------------------------------------------------------------------------------------------------------
+// domain fatalseq: the errors the handlers of several informers hand to the reporter one after the other.  An informer that is
+// stopped at run time (its namespace or CRD went away) can leave a handler in the middle of a status read, which then fails with the
+// informer's context error: that is not a failure of the watch and must not use up the one error report the reporter has.
+
+type fatalSeqIn struct {
+	Errs []string `json:"errs"` // "ctx" | "deadline" | "wrapped-ctx" | "wrapped-deadline" | "real:<text>"
+}
+
+func fatalErrOf(k string) error {
+	switch k {
+	case "ctx":
+		return context.Canceled
+	case "deadline":
+		return context.DeadlineExceeded
+	case "wrapped-ctx":
+		return fmt.Errorf("failed to compute object status: x: %w", context.Canceled)
+	case "wrapped-deadline":
+		return fmt.Errorf("failed to list replicasets: %w", context.DeadlineExceeded)
+	}
+	return errors.New(strings.TrimPrefix(k, "real:"))
+}
+
+func runFatalSeq(in fatalSeqIn) (out map[string]any) {
+	defer func() {
+		if r := recover(); r != nil {
+			out = map[string]any{"panic": fmt.Sprint(r), "sent": []string{}, "stopped": false}
+		}
+	}()
+	var errs []error
+	for _, k := range in.Errs {
+		errs = append(errs, fatalErrOf(k))
+	}
+	sent, stopped := watcher.VerifFatalSeq(errs)
+	if sent == nil {
+		sent = []string{}
+	}
+	return map[string]any{"panic": nil, "sent": sent, "stopped": stopped}
+}
+
+func init() {
+	register("fatalseq", domain{gen: func(out *proto.Out, rng *proto.Rng, tier string) {
+		kinds := []string{"ctx", "deadline", "wrapped-ctx", "wrapped-deadline", "real:forbidden", "real:boom"}
+		// every sequence of length ≤ 3, then random longer ones
+		var rec func(pre []string, n int)
+		rec = func(pre []string, n int) {
+			in := fatalSeqIn{Errs: append([]string{}, pre...)}
+			out.Emit("fatalseq", in, runFatalSeq(in))
+			if n == 0 {
+				return
+			}
+			for _, k := range kinds {
+				rec(append(pre, k), n-1)
+			}
+		}
+		rec(nil, 3)
+		for i := 0; i < 300; i++ {
+			in := fatalSeqIn{Errs: []string{}}
+			for k := 4 + rng.Intn(5); k > 0; k-- {
+				in.Errs = append(in.Errs, proto.Pick(rng, kinds))
+			}
+			out.Emit("fatalseq", in, runFatalSeq(in))
+		}
+	}, run: func(raw json.RawMessage) (any, error) {
+		var in fatalSeqIn
+		if err := json.Unmarshal(raw, &in); err != nil {
+			return nil, err
+		}
+		return runFatalSeq(in), nil
 	}})
 }
